@@ -1,6 +1,6 @@
 (* Correspondence evaluator for C12: for every wire identifier, what the library does against the generated tables. *)
 From Coq Require Import ZArith NArith List Bool String.
-Require Import Base.GoInt Spec.LayoutKinds Spec.LayoutSpec Gen.Funcs Gen.Layouts Tie.LayoutsAgree Run.EvalBase.
+Require Import Base.GoInt Spec.LayoutKinds Spec.LayoutSpec Gen.Funcs Gen.Layouts Spec.LayoutCheck Run.EvalBase.
 Import ListNotations.
 Open Scope Z_scope.
 
